@@ -65,9 +65,11 @@ def jack_oracle(spec):
     require(abs(var - o.dvalue ** 2) <= tol, 'jackknife variance differs from the squared naive error', var, o.dvalue ** 2)
     back = pe.import_jackknife(j, c['name'], idl=[idl_arg(c)])
     rf = RefObs.from_samples([x], [c['name']], [c['idl']])
-    cmp_obs(rf, back, 'import_jackknife(export_jackknife(o))', rtol=1e-9, atol_scale=1e-11, vtol=1e-12, check_form=True)
+    # the import forms sum_j J_j - (N-1) J_i: rounding grows like N * eps relative to the sample magnitude
+    rnd = max(1e-12, 200 * n * np.finfo(float).eps)
+    cmp_obs(rf, back, 'import_jackknife(export_jackknife(o))', rtol=1e-9, atol_scale=10 * rnd, vtol=rnd, check_form=True)
     j2 = back.export_jackknife()
-    require(np.all(np.abs(j2 - j) <= 1e-11 * scale), 'export -> import -> export is not a fixed point', float(np.max(np.abs(j2 - j))))
+    require(np.all(np.abs(j2 - j) <= 10 * rnd * scale), 'export -> import -> export is not a fixed point', float(np.max(np.abs(j2 - j))))
     k = gen.classify_idl(c['idl'])
     return {'nt': k != 'contig', 'cls': ['idl:' + k, 'data:' + c['data']['kind'], 'n<=8' if n <= 8 else 'n>8']}
 
@@ -102,7 +104,7 @@ def boot_oracle(spec):
     c = spec['chain']
     x = np.array(chain_samples(c), dtype=float)
     n = len(x)
-    scale = float(np.max(np.abs(x))) or 1.0
+    scale = (float(np.max(np.abs(x))) or 1.0) + 1e-290      # samples in the denormal range carry no relative precision
     o = build_obs({'chains': [c], 'cov': []})
     table = np.array(spec['table'], dtype=int)
     ns = table.shape[0]
